@@ -461,10 +461,16 @@ class MutationAnalysis:
                 b = base
                 while isinstance(b, ast.Subscript):
                     b = b.value
-                if isinstance(b, ast.Name) and b.id in self._like and value_node is not None and \
-                        self._is_float_expr(fi, value_node, self.float_names.get(fi.qualname, set())):
-                    emit("dtype", self._like[b.id], t,
-                         "float-valued store into an array that inherits the argument's dtype (int64 input truncates)")
+                if isinstance(b, ast.Name) and b.id in self._like and value_node is not None:
+                    if self._is_float_expr(fi, value_node, self.float_names.get(fi.qualname, set())):
+                        emit("dtype", self._like[b.id], t,
+                             "float-valued store into an array that inherits the argument's dtype (int64 input truncates)")
+                    else:
+                        vr = self._dtype_roots(fi, value_node, st) or frozenset()
+                        if len(_unbox(vr)) >= 2 and _unbox(self._like[b.id]) <= _unbox(vr):
+                            emit("dtype", self._like[b.id], t,
+                                 "store of a value computed from several arguments into an array that inherits the dtype of one of them "
+                                 "(an integer argument truncates what the others make fractional)")
             elif isinstance(t, (ast.Tuple, ast.List)):
                 for e in t.elts:
                     store_target(e, None)
@@ -479,9 +485,9 @@ class MutationAnalysis:
                 else:
                     st.pop(t.id, None)
                 # dtype-inheriting constructors
-                like = self._like_roots(fi, value, st) if value is not None else None
+                like = self._dtype_roots(fi, value, st) if value is not None else None
                 if like:
-                    self._like[t.id] = like
+                    self._like[t.id] = frozenset(like)
                 else:
                     self._like.pop(t.id, None)
             elif isinstance(t, (ast.Tuple, ast.List)):
@@ -499,6 +505,20 @@ class MutationAnalysis:
             scan_expr(node.iter)
             if label == "iter":
                 bind(node.target, None, _unbox(self._taint(fi, node.iter, st)))
+                # elements inherit the dtype of what is iterated (through enumerate / zip as well)
+                it, tg = node.iter, node.target
+                pairs = []
+                if isinstance(it, ast.Call) and isinstance(it.func, ast.Name) and it.func.id == "enumerate" and it.args and isinstance(tg, ast.Tuple) and len(tg.elts) == 2:
+                    pairs = [(tg.elts[1], it.args[0])]
+                elif isinstance(it, ast.Call) and isinstance(it.func, ast.Name) and it.func.id == "zip" and isinstance(tg, ast.Tuple) and len(tg.elts) == len(it.args):
+                    pairs = list(zip(tg.elts, it.args))
+                else:
+                    pairs = [(tg, it)]
+                for t_, src_ in pairs:
+                    roots_ = self._dtype_roots(fi, src_, st)
+                    for nm_ in [x.id for x in ast.walk(t_) if isinstance(x, ast.Name)]:
+                        if roots_:
+                            self._like[nm_] = frozenset(roots_)
             return st
         if n.kind == "test":
             scan_expr(node)
@@ -554,6 +574,66 @@ class MutationAnalysis:
             return st
         return st
 
+    def _dtype_roots(self, fi: FuncInfo, e, st, depth: int = 0) -> Optional[FrozenSet[str]]:
+        """Arguments whose dtype the value of `e` inherits: views and copies alike (indexing, *_like, .copy(), np.abs,
+        integer arithmetic between such values).  None when the dtype is fixed otherwise (a float literal or division,
+        dtype=..., astype, an unknown call)."""
+        if e is None or depth > 12:
+            return None
+        fl = self.float_names.get(fi.qualname, set())
+        if isinstance(e, ast.Name):
+            r = frozenset(_unbox(st.get(e.id, frozenset()))) | frozenset(self._like.get(e.id, frozenset()))
+            return r or None
+        if isinstance(e, (ast.Subscript, ast.Starred)):
+            return self._dtype_roots(fi, e.value, st, depth + 1)
+        if isinstance(e, ast.Attribute) and e.attr in ("T", "real", "flat"):
+            return self._dtype_roots(fi, e.value, st, depth + 1)
+        if isinstance(e, ast.UnaryOp) and isinstance(e.op, (ast.USub, ast.UAdd)):
+            return self._dtype_roots(fi, e.operand, st, depth + 1)
+        if isinstance(e, ast.IfExp):
+            a, b = self._dtype_roots(fi, e.body, st, depth + 1), self._dtype_roots(fi, e.orelse, st, depth + 1)
+            return (a or frozenset()) | (b or frozenset()) or None
+        if isinstance(e, ast.BinOp) and isinstance(e.op, (ast.Add, ast.Sub, ast.Mult, ast.FloorDiv, ast.Mod)):
+            if self._is_float_expr(fi, e, fl):
+                return None
+            out = frozenset()
+            for side in (e.left, e.right):
+                if isinstance(side, ast.Constant) and isinstance(side.value, int) and not isinstance(side.value, bool):
+                    continue
+                r = self._dtype_roots(fi, side, st, depth + 1)
+                if not r:
+                    return None            # an operand of unknown dtype: nothing can be said
+                out |= r
+            return out or None
+        if isinstance(e, (ast.Tuple, ast.List)):
+            out = frozenset()
+            for x in e.elts:
+                r = self._dtype_roots(fi, x, st, depth + 1)
+                if not r:
+                    return None
+                out |= r
+            return out or None
+        if isinstance(e, ast.Call):
+            if any(kw.arg == "dtype" for kw in e.keywords):
+                return None
+            f = e.func
+            if isinstance(f, ast.Attribute):
+                r0 = self.lk.resolve(fi.module, f.value)
+                if r0.kind not in ("module", "dep"):
+                    if f.attr in DTYPE_PRESERVING_METHODS:
+                        return self._dtype_roots(fi, f.value, st, depth + 1)
+                    return None
+            r = self.lk.resolve(fi.module, f)
+            if r.kind == "dep" and r.obj is not None:
+                nm = getattr(r.obj, "__name__", "")
+                if nm in DTYPE_PRESERVING_FUNCS and e.args and "numpy" in (getattr(r.obj, "__module__", "") or ""):
+                    if nm in ("maximum", "minimum") and len(e.args) >= 2:
+                        a, b = self._dtype_roots(fi, e.args[0], st, depth + 1), self._dtype_roots(fi, e.args[1], st, depth + 1)
+                        return ((a or frozenset()) | (b or frozenset())) if (a and b) else None
+                    return self._dtype_roots(fi, e.args[0], st, depth + 1)
+            return None
+        return None
+
     def _like_roots(self, fi: FuncInfo, value, st) -> Optional[FrozenSet[str]]:
         """Roots whose dtype the value inherits (np.*_like(arg), arg.copy(), np.array(arg) without dtype)."""
         if not isinstance(value, ast.Call):
@@ -573,6 +653,12 @@ class MutationAnalysis:
                 roots = self._taint(fi, value.args[0], st)
                 return roots or None
         return None
+
+
+DTYPE_PRESERVING_FUNCS = {"abs", "absolute", "negative", "maximum", "minimum", "sort", "unique", "concatenate", "hstack", "vstack", "cumsum", "diff",
+                          "copy", "array", "asarray", "empty_like", "zeros_like", "ones_like", "full_like", "take", "flip", "roll", "clip", "sum", "max", "min",
+                          "amax", "amin", "squeeze", "ravel", "reshape", "transpose", "append", "delete", "column_stack", "stack"}
+DTYPE_PRESERVING_METHODS = {"copy", "max", "min", "sum", "cumsum", "flatten", "ravel", "reshape", "squeeze", "transpose", "take", "clip"}
 
 
 def _float_valued(e) -> bool:
